@@ -7,6 +7,7 @@ import (
 	"crypto/sha1"
 	"fmt"
 	"os"
+	"path/filepath"
 	"regexp"
 	"sort"
 	"strings"
@@ -28,6 +29,7 @@ type layout struct {
 	fileOf []int
 	parent []int
 	dir    []string
+	names  []string
 }
 
 func genLayout(r *rng, n int, maxFiles int) layout {
@@ -42,6 +44,7 @@ func genLayout(r *rng, n int, maxFiles int) layout {
 	for i := range l.fileOf {
 		l.fileOf[i] = r.intn(nf)
 	}
+	l.names = layoutNames(l, r)
 	return l
 }
 
@@ -62,11 +65,37 @@ func relPath(fromDir, toDir, name string, r *rng) string {
 	return p + name
 }
 
-// writeLayout materialises the journal under dir according to l; returns the root file
+// layoutNames gives every file of a layout its name.  Two schemes: f<k>.knut, or names from a pool in which one
+// name is the tail of another and the same base name occurs in several directories (accounts.knut below
+// 2021/accounts.knut ...): a file layout a user would really have (seeded change C05b-cycle-check-substring compared
+// include chains as strings and took such a tree for a cycle; it was missed with unique names and absolute paths).
+func layoutNames(l layout, r *rng) []string {
+	nf := len(l.parent)
+	names := make([]string, nf)
+	pool := []string{"accounts.knut", "myaccounts.knut", "prices.knut", "allprices.knut", "s.knut", "x-s.knut", "journal.knut"}
+	scheme := 0
+	if r != nil {
+		scheme = r.intn(2)
+	}
+	used := map[string]bool{}
+	for f := 0; f < nf; f++ {
+		n := fmt.Sprintf("f%d.knut", f)
+		if scheme == 1 {
+			if c := pick(r, pool); !used[l.dir[f]+"/"+c] {
+				n = c
+			}
+		}
+		used[l.dir[f]+"/"+n] = true
+		names[f] = n
+	}
+	return names
+}
+
+// writeLayout materialises the journal under dir according to l; returns the root file (absolute)
 func writeLayout(dir string, j Journal, l layout, r *rng) string {
 	nf := len(l.parent)
 	content := make([]strings.Builder, nf)
-	name := func(f int) string { return fmt.Sprintf("f%d.knut", f) }
+	name := func(f int) string { return l.names[f] }
 	for f := 1; f < nf; f++ {
 		p := l.parent[f]
 		fmt.Fprintf(&content[p], "include \"%s\"\n\n", relPath(l.dir[p], l.dir[f], name(f), r))
@@ -80,6 +109,19 @@ func writeLayout(dir string, j Journal, l layout, r *rng) string {
 		writeFile(dir, l.dir[f]+"/"+name(f), content[f].String())
 	}
 	return dir + "/" + name(0)
+}
+
+// invocation varies how the root file is named on the command line: absolute, bare (cwd = its directory) or
+// relative to the parent directory.  Returns (cwd, root argument).
+func invocation(absRoot string, r *rng) (string, string) {
+	d, b := filepath.Dir(absRoot), filepath.Base(absRoot)
+	switch r.intn(3) {
+	case 0:
+		return d, absRoot
+	case 1:
+		return d, b
+	}
+	return filepath.Dir(d), filepath.Base(d) + "/" + b
 }
 
 var dateLine = regexp.MustCompile(`^\d{4}-\d{2}-\d{2} `)
@@ -211,7 +253,12 @@ func obsC05(in string) string {
 				vroot = writeLayout(vdir, jv, l, r)
 				desc = fmt.Sprintf("split#%d(files=%d)", v, len(l.parent))
 			}
-			x := runAll(vroot, vdir, cfgs, nil)
+			cwd, rootArg := vdir, vroot
+			if v >= kp {
+				cwd, rootArg = invocation(vroot, r)
+				desc += " root=" + rootArg
+			}
+			x := runAll(rootArg, cwd, cfgs, nil)
 			switch {
 			case x.check != b.check:
 				verdict = fmt.Sprintf("diff check %s vs %s variant=%s", b.check, x.check, desc)
@@ -425,7 +472,7 @@ func genC06Ties(r *rng, o genOpts) (Journal, BalCfg) {
 	for i := 0; i < k; i++ {
 		c := r.rangeInt(1, 99999)
 		if r.chance(50) {
-			c = r.rangeInt(1, 9)*1010 // 10.10, 20.20, ...
+			c = r.rangeInt(1, 9) * 1010 // 10.10, 20.20, ...
 		}
 		cents += c
 		a := "Assets:" + groups[gp[0]] + ":" + leaves[lp[i]]
